@@ -100,7 +100,7 @@ def leaves1(tier):
 
 
 def leaves3(tier):
-    out = [S1, S_GROW, S2, M_TET, M_BOX]
+    out = [S1, S_GROW, S2, M_TET, M_BOX, Rot3(M_BOX, 0.7, "z", around=[0.2, 0.1, 0.0]), Rot3(S2, aff(0.2, t=1.0), "x")]
     if tier == "thorough":
         out += [S_MOVE, M("tetra", "in", "arrays"), M("tetra", "out", "file"), M("box", "out", "arrays")]
     return out
@@ -132,7 +132,8 @@ def booleans3(tier):
     if tier == "thorough":
         out += [U(S1, G_S), Cut(S1, G_S), U(S2, S([3, 0, 0], 0.5), disjoint=True), Cut(S_GROW, IN_S2),
                 U(M_TET, M_G_S), Cut(M_TET, M_G_S), U(M_TET, S([3, 0, 0], 0.5), disjoint=True),
-                Tr(M_TET, [aff(0, t=1), 0.5, 0])]
+                Tr(M_TET, [aff(0, t=1), 0.5, 0]), Rot3(M_TET, aff(0, t=1.1), "y", around=[0.5, 0.5, 0.5]),
+                Rot3(Cut(M_BOX, M_IN_S, contained=True), 0.5, "x"), N(Rot3(S_GROW, 0.9, "z", around=[0.3, 0, 0]), G_S)]
     return out
 
 
